@@ -16,33 +16,88 @@ func startEdge(t tensor.Tensor) (edge *backwardEdge) {
 	}
 }
 
+// backward propagates in reverse topological order: the edges leaving a tensor
+// are followed only after every edge of the graph arriving at it has delivered
+// its share, so each gradFn runs once and reads a complete gradient.
 func backward(edge *backwardEdge) (err error) {
-	gctx := gradContextOf(edge.target)
+	root := gradContextOf(edge.target)
 
-	if !gctx.tracked {
+	if !root.tracked {
 		return nil
-	} else {
-		gctx.bpdirty = true
 	}
 
+	pending := markReachable(root)
+
+	err = deliverGrad(edge, root)
+	if err != nil {
+		return
+	}
+
+	ready := []*GradContext{root}
+
+	for len(ready) > 0 {
+		gctx := ready[len(ready)-1]
+		ready = ready[:len(ready)-1]
+
+		for _, e := range gctx.backEdges {
+			target := gradContextOf(e.target)
+
+			if !target.tracked {
+				continue
+			}
+
+			err = deliverGrad(e, target)
+			if err != nil {
+				return
+			}
+
+			pending[target]--
+			if pending[target] == 0 {
+				ready = append(ready, target)
+			}
+		}
+	}
+
+	return nil
+}
+
+// markReachable marks every tracked context reachable from root as bpdirty and
+// counts, per context, the edges of the reachable graph that point to it.
+func markReachable(root *GradContext) (pending map[*GradContext]int) {
+	pending = make(map[*GradContext]int)
+	root.bpdirty = true
+
+	stack := []*GradContext{root}
+
+	for len(stack) > 0 {
+		gctx := stack[len(stack)-1]
+		stack = stack[:len(stack)-1]
+
+		for _, e := range gctx.backEdges {
+			target := gradContextOf(e.target)
+
+			if !target.tracked {
+				continue
+			}
+
+			pending[target]++
+			if pending[target] == 1 {
+				target.bpdirty = true
+				stack = append(stack, target)
+			}
+		}
+	}
+
+	return pending
+}
+
+func deliverGrad(edge *backwardEdge, gctx *GradContext) (err error) {
 	grad, err := edge.gradFn()
 	if err != nil {
 		return
 	}
 
-	err = accumulateGrad(gctx, grad)
-	if err != nil {
-		return
-	}
-
-	for _, e := range gctx.backEdges {
-		err = backward(e)
-		if err != nil {
-			return
-		}
-	}
-
-	return nil
+	return accumulateGrad(gctx, grad)
 }
 
 func accumulateGrad(gctx *GradContext, grad tensor.Tensor) (err error) {
